@@ -131,6 +131,13 @@ func Conforming(t *rapid.T, cfg Cfg) M {
 	b.ext(paths)
 	doc["paths"] = paths
 
+	if cfg.Examples && cfg.ReadWrite && b.chance(2, "rwexample") {
+		// a component nothing refers to: neither a request nor a response, so its example may carry
+		// the read-only and the write-only property alike, however often and after whatever the
+		// document is validated
+		b.comps["schemas"]["RWExample"] = M{"type": "object", "properties": M{"ro": M{"type": "string", "readOnly": true}, "wo": M{"type": "string", "writeOnly": true}},
+			"required": []any{"ro", "wo"}, "example": M{"ro": "a", "wo": "b"}}
+	}
 	comps := M{}
 	for k, m := range b.comps {
 		if len(m) > 0 {
